@@ -149,7 +149,7 @@ def run_case(item):
             obs, run = B.execute(aiu, ev, cfg)
             st.executions += 1
             st.transitions += len(ev) + len(obs.batches)
-            st.sig((tuple(ev), cfg['mbs'], cfg['mcb'], cfg['batch_dur'], B.describe(obs)))
+            st.sig((tuple(ev), cfg['mbs'], cfg['mcb'], cfg['batch_dur'], cfg.get('eager'), B.describe(obs)))
             if len(obs.batches) > 1:
                 st.count('runs_with_several_batches')
             if obs.max_running >= cfg['mcb'] and len(obs.batches) > cfg['mcb']:
@@ -173,8 +173,8 @@ def plan(tier):
         mbs, mcb, durs = (1, 2, 3, 4, 5), (1, 2, 3), (0.0, 0.5, 3.0)
         setv = (1, 2, 4)
     for n in ns:
-        cfgs = [{'mbs': a, 'mcb': b, 'batch_dur': d, 'R': 0.0} for a in mbs for b in mcb for d in durs
-                if a <= n + 1]
+        cfgs = [{'mbs': a, 'mcb': b, 'batch_dur': d, 'R': 0.0, 'eager': e} for a in mbs for b in mcb for d in durs
+                for e in ((False, True) if d else (False,)) if a <= n + 1]
         sv = setv if n <= (4 if tier == 'quick' else 5) else ()
         if n == 1:
             yield (n, None, cfgs, gaps[n], sv)
